@@ -26,22 +26,22 @@ the concatenated tokens are a subsequence of the input, the characters outside
 the quoting syntax (not whitespace / allowed quote / backslash) survive in
 order, no unquoted token is empty, and split() == [t for _, t in Splitter].
 
-Mutants this was built against (scratch worktree, all caught with a concrete
-input by the oracle unless noted):
- M1 _Backslash: `self.count // 2` -> `(self.count + 1) // 2`
- M2 _Backslash: odd/even test swapped (`% 2 == 1` -> `% 2 == 0`)
- M3 _Backslash.finish dropped (trailing backslashes lost)
- M4 _Quotes: closing quote no longer appends "" (quoted empty argument `""`
-    before whitespace is swallowed / merged)
- M5 _Whitespace: `context.quoted = True` dropped ("" tokens vanish)
- M6 _Word: whitespace test replaced by `next_char == " "` (tabs/U+3000 no
-    longer separate)
- M7 _Backslash non-quote branch: pushback dropped (character after a backslash
-    run is lost)
- M8 _Quotes(next_char, self) in _Word -> exit to _Whitespace (T2 only when
-    behaviour is the same on the oracle's inputs)
- H1 harmless: `_Word.process` rewritten with early returns, pushback buffer as
-    collections.deque — stays clean.
+Mutants this was built against (scratch worktree; each reported as VIOLATION
+with the concrete input shown, found by the oracle, except M8):
+ M1 _Backslash: `self.count // 2` -> `(self.count + 1) // 2`      args=['"']
+ M2 _Backslash: odd/even test swapped (`% 2 == 1` -> `% 2 == 0`)   args=['\\\\\\']
+ M3 _Backslash.finish dropped (trailing backslashes lost)          words=['\\']
+ M4 _Quotes: closing quote no longer appends ""                    args=['', '']
+ M5 _Whitespace: `context.quoted = True` dropped                   "a '' c" loses c
+ M6 _Word: whitespace test replaced by `next_char == " "`          <TAB>b<TAB>a<TAB>
+ M7 _Backslash non-quote branch: pushback dropped                  '"\\\'"' (sq off)
+ M8 _Word: `_Quotes(next_char, self)` -> exit to `_Whitespace()`: split() is
+    unchanged, only the `quoted` flag of `a` + three double quotes differs — reported by T2
+    (model vs Splitter) as no-failing-input-found
+ M9 _Backslash: `in context.allowed_quote_chars` -> `== '"'`        args=["\\'"] (sq on)
+ M11 _Whitespace: whitespace never ends a token                    args=['', '']
+ H1 harmless: `_Word.process` rewritten with early returns and `token += [c]`
+ H2 harmless: push-back `pop()` -> `pop(0)` (at most one element) — both clean.
 """
 import itertools
 
